@@ -92,7 +92,7 @@ Ctors    == {"new", "new_unaligned", "with_capacity", "raw", "a_new", "a_raw", "
              "macro_empty", "macro_rep", "macro_list"}
 VecOps   == {"push", "pop", "resize", "clear", "extend", "bit_width_vec", "mask_vec"}
 ReadOps  == {"get", "get_unchecked", "len", "is_empty", "bit_width", "iter", "iter_from", "into_iter",
-             "into_iter_from", "iter_len", "uiter", "ruiter", "eq_other", "addr_of", "get_unaligned",
+             "into_iter_from", "slice_iter", "iter_len", "uiter", "ruiter", "eq_other", "addr_of", "get_unaligned",
              "mem_size", "view_atomic_get"}
 WriteOps == {"set", "set_unchecked", "mask", "reset", "par_reset", "apply", "apply_unchecked",
              "copy_to", "copy_from", "chunks", "view_atomic_set"}
@@ -120,7 +120,7 @@ Pre(op) ==
 
 Applicable(op) ==
     LET o == op.op IN
-    \/ o \in {"new", "new_unaligned", "with_capacity", "raw", "from_slice"}
+    \/ o \in {"new", "new_unaligned", "with_capacity", "raw", "from_slice", "plain"}
     \/ o \in {"a_new", "a_raw"} /\ HasAtomic
     \/ o \in {"macro_empty", "macro_rep", "macro_list"} /\ wt = "usize"
     \/ o \in VecOps /\ form = "vec"
@@ -200,15 +200,16 @@ NA          == R("na", "none", <<>>, Same, FALSE)
 \* the function applied by apply_in_place, described by the event:
 \* f(x) = (x op m) restricted to the width; xorprev uses the previous argument
 BfSymDiff(a, b) == (a \ b) \cup (b \ a)
-ApplyF(kind, m, x, prev) ==
+ApplyFw(kind, m, x, prev, wd) ==
     (CASE kind = "id"      -> x
-       [] kind = "not"     -> Low(width) \ x
+       [] kind = "not"     -> Low(wd) \ x
        [] kind = "xor"     -> BfSymDiff(x, m)
        [] kind = "and"     -> x \cap m
        [] kind = "or"      -> x \cup m
        [] kind = "const"   -> m
        [] kind = "shl1"    -> {b + 1 : b \in x}
-       [] kind = "xorprev" -> BfSymDiff(x, prev)) \cap Low(width)
+       [] kind = "xorprev" -> BfSymDiff(x, prev)) \cap Low(wd)
+ApplyF(kind, m, x, prev) == ApplyFw(kind, m, x, prev, width)
 ApplyAll(kind, m) ==
     [k \in 1 .. BLen |-> ApplyF(kind, m, abs[k], IF k = 1 THEN {} ELSE abs[k - 1])]
 
@@ -239,6 +240,40 @@ ChunkActs(a, c, acts, k) ==          \* -> [abs, res]
              a2    == IF this.k = "w" THEN [a EXCEPT ![idx + 1] = v] ELSE a
              rest  == ChunkActs(a2, c, acts, k + 1)
          IN  [abs |-> rest.abs, res |-> <<this>> \o rest.res]
+
+\* The blanket implementations of the slice traits for plain vectors of words (Vec<W>,
+\* Vec<AtomicW>): every element is a full-width field.  `plain` is a stateless operation:
+\* an operand given by the event and a list of accesses, each with its result.
+PRes(k, v, vs, n) == [k |-> k, v |-> v, vs |-> vs, n |-> n]
+RECURSIVE PlainActs(_, _, _)
+PlainActs(a, acts, k) ==          \* -> [fin, res]
+    IF k > Len(acts) THEN [fin |-> a, res |-> <<>>]
+    ELSE LET act == acts[k]
+             kk  == act.k
+             n   == Len(a)
+             ok0 == PRes("ok", {}, <<>>, 0)
+             x   == \* [r: result, a: contents afterwards]
+                CASE kk \in {"a_get", "a_set", "a_reset", "a_par_reset", "a_len", "a_bit_width"} /\ ~HasAtomic ->
+                        [r |-> PRes("u", {}, <<>>, 0), a |-> a]
+                  [] kk \in {"get", "a_get"} ->
+                        IF act.i < n THEN [r |-> PRes("ok", a[act.i + 1], <<>>, 0), a |-> a]
+                        ELSE [r |-> PRes("p", {}, <<>>, 0), a |-> a]
+                  [] kk \in {"set", "a_set"} ->
+                        IF act.i < n THEN [r |-> ok0, a |-> [a EXCEPT ![act.i + 1] = ToSet(act.v)]]
+                        ELSE [r |-> PRes("p", {}, <<>>, 0), a |-> a]
+                  [] kk \in {"reset", "par_reset", "a_reset", "a_par_reset"} -> [r |-> ok0, a |-> Rep(n, {})]
+                  [] kk \in {"len", "a_len"} -> [r |-> PRes("ok", {}, <<>>, n), a |-> a]
+                  [] kk \in {"bit_width", "a_bit_width"} -> [r |-> PRes("ok", {}, <<>>, W), a |-> a]
+                  [] kk = "copy" ->
+                        LET d == Vals(act.dst) IN
+                        IF act.from > n \/ act.to > Len(d) THEN [r |-> PRes("u", {}, <<>>, 0), a |-> a]
+                        ELSE [r |-> PRes("ok", {}, CopyAbs(a, act.from, d, act.to,
+                                                           CopyCount(act.n, n, act.from, Len(d), act.to)), 0), a |-> a]
+                  [] kk = "apply" ->
+                        [r |-> PRes("ok", {}, a, 0),
+                         a |-> [i \in 1 .. n |-> ApplyFw(act.kind, ToSet(act.m), a[i], IF i = 1 THEN {} ELSE a[i - 1], W)]]
+             rest == PlainActs(x.a, acts, k + 1)
+         IN  [fin |-> rest.fin, res |-> <<x.r>> \o rest.res]
 
 \* get_unaligned: admissible widths, and whether a padding word follows the contents
 UnalignedWidth == width + 6 <= W \/ width + 4 = W \/ width = W
@@ -281,6 +316,7 @@ Eff(op, g) ==
              ELSE IF g.width < mw \/ g.width > W THEN R("ret", "int", TRUE, Same, FALSE)
              ELSE R("ret", "int", TRUE,
                     St(wt, g.width, vs, Enc(vs, 0, Len(vs), g.width) \cup g.garb, g.nw, "vec", "exact"), FALSE)
+    [] o = "plain" -> Ret("plain", PlainActs(Vals(op.vals), op.acts, 1))
     [] o = "macro_rep" ->         \* with_capacity + resize
          LET v == ToSet(op.v) IN
          IF ~(v \subseteq Low(op.width)) THEN Panic
@@ -362,7 +398,7 @@ Eff(op, g) ==
     [] o \in {"bit_width", "bit_width_vec", "a_bit_width"} -> Ret("int", width)
     [] o \in {"mask", "mask_vec", "a_mask"}             -> Ret("val", Low(width))
     [] o \in {"iter", "into_iter", "a_all"}             -> Ret("vals", abs)
-    [] o \in {"iter_from", "into_iter_from"} ->
+    [] o \in {"iter_from", "into_iter_from", "slice_iter"} ->
          IF op.from > BLen THEN Panic ELSE Ret("vals", SubSeq(abs, op.from + 1, BLen))
     [] o = "iter_len" ->
          IF op.from > BLen THEN Panic
